@@ -75,6 +75,11 @@ def handle (line : String) : String :=
       let dbl := decide (2 ≤ exprNameWriteFactor)
       showO toString (exprLenOut exprLenCfg (.leaf (if dbl then 2 else 0) n (if dbl then min q n else 0)))
     | _, _ => "bad-op"
+  | ["exprrep", n] =>
+    -- `[ 0 : <expression that prints n characters> ]` measured by EXPRlength
+    match n.toNat? with
+    | some n => showO toString (exprLenOut exprLenCfg (.list 2 (.cons 0 (.leaf 1 0 0) (.rep 3 (.leaf 0 n 0) .nil))))
+    | none => "bad-op"
   | ["casefn", fn, n] =>
     match n.toNat?, caseFns.lookup fn with
     | some n, some c => showO toString (loopOut c n)
@@ -224,6 +229,21 @@ def handle (line : String) : String :=
       | some m => s!"returns seen={m.length}"
       | none => "never-returns"
     | none => "bad-op"
+  | ["dagwalk", which, n] =>
+    -- calls of the named walk on a ladder of n + 1 levels (every node names the level below twice)
+    match n.toNat? with
+    | some k =>
+      let memo := (dagWalks.find? (fun p => p.1 == which)).map (·.2)
+      match memo with
+      | none => "bad-op"
+      | some mm =>
+        -- without memo the count is 2^(k+1) - 1 (theorem): do not evaluate it for large k
+        if !mm && k > 20 then s!"calls 2^{k + 1}-1"
+        else match walkSteps mm ladderH (k + 1) [] k with
+          | some (_, c) => s!"calls {c}"
+          | none => "never-returns"
+    | none => "bad-op"
+  | ["nodebudget"] => s!"budget {complexNodeBudget}"
   | ["exitsites"] =>
     s!"fallback={usageFallback} sites={exitSites.map (fun x => (x.1, x.2.1, x.2.2))}"
   | ["config"] =>
